@@ -39,7 +39,8 @@ EXPLANATION = ("literal shape-alignment obligations per (vector, module, next-le
 def obligations(ctx):
     obs = ctx.verify(FUNCTIONS)
     obs = [o for o in obs if "citation" not in o.name]
-    return obs + literal(ctx)
+    from props._shared import typing_state_census
+    return list(obs + literal(ctx)) + [typing_state_census(ctx, 'C11')]
 
 
 def cls_incl(wide, narrow):
